@@ -1,0 +1,84 @@
+//go:build verif
+
+package stats
+
+import "sync/atomic"
+
+// VerifSnapshot is a copy of the raw counters behind the public getters.
+type VerifSnapshot struct {
+	URLsCrawledTotal      uint64
+	SeedsFinishedTotal    uint64
+	PreprocessorRoutines  uint64
+	ArchiverRoutines      uint64
+	PostprocessorRoutines uint64
+	FinisherRoutines      uint64
+	HTTPCodesTotal        map[string]uint64
+	MeanHTTPCount         uint64
+	MeanHTTPSum           uint64
+	MeanBodyCount         uint64
+	MeanBodySum           uint64
+	MeanFeedbackCount     uint64
+	MeanFeedbackSum       uint64
+}
+
+// VerifTotals returns the raw totals (nil when stats are not initialised).
+func VerifTotals() *VerifSnapshot {
+	s := globalStats
+	if s == nil {
+		return nil
+	}
+	return &VerifSnapshot{
+		URLsCrawledTotal:      s.URLsCrawled.getTotal(),
+		SeedsFinishedTotal:    s.SeedsFinished.getTotal(),
+		PreprocessorRoutines:  s.PreprocessorRoutines.get(),
+		ArchiverRoutines:      s.ArchiverRoutines.get(),
+		PostprocessorRoutines: s.PostprocessorRoutines.get(),
+		FinisherRoutines:      s.FinisherRoutines.get(),
+		HTTPCodesTotal:        s.HTTPReturnCodes.getAllTotal(),
+		MeanHTTPCount:         atomic.LoadUint64(&s.MeanHTTPResponseTime.count),
+		MeanHTTPSum:           atomic.LoadUint64(&s.MeanHTTPResponseTime.sum),
+		MeanBodyCount:         atomic.LoadUint64(&s.MeanProcessBodyTime.count),
+		MeanBodySum:           atomic.LoadUint64(&s.MeanProcessBodyTime.sum),
+		MeanFeedbackCount:     atomic.LoadUint64(&s.MeanWaitOnFeedbackTime.count),
+		MeanFeedbackSum:       atomic.LoadUint64(&s.MeanWaitOnFeedbackTime.sum),
+	}
+}
+
+// The types below give the harness access to the unexported primitives so that
+// concurrent histories can be recorded against each of them in isolation.
+
+type VerifCounter struct{ c counter }
+
+func (v *VerifCounter) Incr(n uint64) { v.c.incr(n) }
+func (v *VerifCounter) Decr(n uint64) { v.c.decr(n) }
+func (v *VerifCounter) Get() uint64   { return v.c.get() }
+func (v *VerifCounter) Reset()        { v.c.reset() }
+
+type VerifRate struct{ r rate }
+
+func (v *VerifRate) Incr(n uint64)    { v.r.incr(n) }
+func (v *VerifRate) Get() uint64      { return v.r.get() }
+func (v *VerifRate) GetTotal() uint64 { return v.r.getTotal() }
+func (v *VerifRate) Reset()           { v.r.reset() }
+
+type VerifMean struct{ m mean }
+
+func (v *VerifMean) Add(n uint64) { v.m.add(n) }
+func (v *VerifMean) Get() float64 { return v.m.get() }
+func (v *VerifMean) Reset()       { v.m.reset() }
+func (v *VerifMean) Raw() (count, sum uint64) {
+	return atomic.LoadUint64(&v.m.count), atomic.LoadUint64(&v.m.sum)
+}
+
+type VerifRateBucket struct{ b *rateBucket }
+
+func NewVerifRateBucket() *VerifRateBucket                { return &VerifRateBucket{b: newRateBucket()} }
+func (v *VerifRateBucket) Incr(k string, n uint64)        { v.b.incr(k, n) }
+func (v *VerifRateBucket) Get(k string) uint64            { return v.b.get(k) }
+func (v *VerifRateBucket) GetTotal(k string) uint64       { return v.b.getTotal(k) }
+func (v *VerifRateBucket) GetAllTotal() map[string]uint64 { return v.b.getAllTotal() }
+func (v *VerifRateBucket) GetFiltered(f string) map[string]uint64 {
+	return v.b.getFiltered(f)
+}
+func (v *VerifRateBucket) Reset(k string) { v.b.reset(k) }
+func (v *VerifRateBucket) ResetAll()      { v.b.resetAll() }
